@@ -231,6 +231,7 @@ def run_case(rng, tier, res):
             mode = rng.choice(["ack"] * 6 + ["none", "none", "bad_pid", "overlong"])
         flagged = getattr(m, "spurious_clear", False)
         info = yield from s.op_in(key[0], mode)
+        m.last_nak = info.get("kind") == "handshake"        # the endpoint had nothing it could send
         if info.get("kind") == "data":
             if getattr(m, "cleared_recently", False):
                 res.bin("toggle_observed_after_clear_in")
@@ -338,7 +339,7 @@ def run_case(rng, tier, res):
                     res.bin("clear_in_toggle1")
                 if m.unacked:
                     res.bin("clear_in_retry_pending")
-                elif m.pending():
+                elif m.pending() and not getattr(m, "last_nak", False):
                     res.bin("clear_in_packet_pending")
                 else:
                     res.bin("clear_in_idle")
